@@ -1,52 +1,264 @@
+// C06: federation is transparent -- the gateway answers like one combined server.
+//
+// Each case is a random partition of a random set of field funcs (over a small catalogue of object / union
+// types, see pkg/fedgen) into 2-4 in-process services, a ServiceSelector choice, a deterministic world of
+// data and a query.  The query is run through the gateway (federation.Executor over DirectExecutorClients)
+// and through a monolith (one non-federated schema with all fields, graphql executor) built over the same
+// world.  Oracle: same JSON (modulo the __typename the gateway adds on union values); every sub-request a
+// service receives validates against that service's own schema and uses only fields / arguments it declares.
 package main
 
 import (
-	"context"
 	"encoding/json"
 	"fmt"
+	"os"
+	"path/filepath"
+	"strings"
 
-	"github.com/samsarahq/thunder/federation"
 	"github.com/samsarahq/thunder/graphql"
-	"github.com/samsarahq/thunder/graphql/introspection"
 	"verifharness/pkg/fedgen"
+	"verifharness/pkg/vh"
 )
 
-func main() {
-	w := fedgen.NewWorld(1)
-	s1 := fedgen.Service{Name: "s1", Federated: true, UseKey: true,
-		Query: []fedgen.Field{{Name: "As", Ret: fedgen.Ret{Kind: "obj", Target: "A", List: true, Ptr: true}},
-			{Name: "U", Ret: fedgen.Ret{Kind: "union", Target: "UAB", List: true, Ptr: true}, Args: []fedgen.Arg{{Name: "N", Kind: "int", Opt: true}, {Name: "F", Kind: "filter", Opt: true}}}},
-		Objects: []fedgen.Object{{Name: "A", Fields: []fedgen.Field{{Name: "AName", Ret: fedgen.Ret{Kind: "str"}}, {Name: "AB", Ret: fedgen.Ret{Kind: "obj", Target: "B", Ptr: true}}}}}}
-	s2 := fedgen.Service{Name: "s2", Federated: true, UseKey: true,
-		Objects: []fedgen.Object{{Name: "A", KeyVariant: 1, Fields: []fedgen.Field{{Name: "ACol", Ret: fedgen.Ret{Kind: "enum", Ptr: true}}, {Name: "AL", Ret: fedgen.Ret{Kind: "leaf"}}}},
-			{Name: "B", Fields: []fedgen.Field{{Name: "BN", Ret: fedgen.Ret{Kind: "int"}, Args: []fedgen.Arg{{Name: "X", Kind: "int"}}}}}}}
-	fedgen.Complete(&s1, func(string) int { return 0 })
-	fedgen.Complete(&s2, func(string) int { return 0 })
-	execs := map[string]federation.ExecutorClient{}
-	for _, sv := range []fedgen.Service{s1, s2} {
-		sb, err := fedgen.Build(sv, w, fedgen.AllColors)
-		if err != nil {
-			panic(err)
-		}
-		b, err := introspection.ComputeSchemaJSON(*sb)
-		if err != nil {
-			panic(err)
-		}
-		fmt.Println(sv.Name, len(b))
-		srv, err := federation.NewServer(sb.MustBuild())
-		if err != nil {
-			panic(err)
-		}
-		execs[sv.Name] = &federation.DirectExecutorClient{Client: srv}
+func js(v interface{}) string {
+	b, _ := json.Marshal(v)
+	return string(b)
+}
+
+func short(s string, n int) string {
+	if len(s) > n {
+		return s[:n] + "..."
 	}
-	ctx := context.Background()
-	e, err := federation.NewExecutor(ctx, execs, &federation.SchemaSyncerConfig{SchemaSyncer: federation.NewIntrospectionSchemaSyncer(ctx, execs, nil)})
+	return s
+}
+
+type obs struct {
+	idx int
+	c   Case
+	res result
+}
+
+func runCase(run *vh.Run, idx int, c Case) *obs {
+	ob := &obs{idx: idx, c: c}
+	w := fedgen.NewWorld(c.Seed)
+	text := c.text()
+	key := js(c.Services) + "|" + js(c.Selector) + "|" + text
+	g, err := buildGateway(&c, w)
 	if err != nil {
-		panic(err)
+		ob.res.buildErr = err.Error()
+		run.Hist("build-failed")
+		run.Count(key, false)
+		return ob
 	}
-	for _, q := range []string{`{ as { id aName aCol aL { val tag } aB { id bN(x: 3) } } }`, `{ u(n: 2, f: {min: 1}) { __typename ... on A { aCol } ... on B { bN(x: 1) } } }`} {
-		res, _, err := e.Execute(ctx, graphql.MustParse(q, map[string]interface{}{}), nil)
-		b, _ := json.Marshal(res)
-		fmt.Println(string(b), err)
+	defer g.cancel()
+	frags := map[string]FragDef{}
+	for _, f := range c.Frags {
+		frags[f.Name] = f
 	}
+	mono, monoErr := runMonolith(&c, fedgen.NewWorld(c.Seed))
+	ob.res.monoJSON, ob.res.monoErr = mono, monoErr
+
+	// plan and normalised query (through the verif hooks) on a separate parse
+	if q, perr := graphql.Parse(text, c.variables()); perr == nil {
+		func() {
+			defer func() {
+				if e := recover(); e != nil {
+					ob.res.planErr = "panic: " + fmt.Sprint(e)
+				}
+			}()
+			p, err := g.exec.VerifPlan(q)
+			if err != nil {
+				ob.res.planErr = firstLine(err.Error())
+			} else {
+				ob.res.plan = p
+			}
+		}()
+	}
+
+	gw, gwErr, timedOut := runGateway(g, &c)
+	ob.res.gwJSON, ob.res.gwErr, ob.res.timedOut = gw, gwErr, timedOut
+	g.mu.Lock()
+	ob.res.subs = append([]subRequest{}, g.log...)
+	g.mu.Unlock()
+
+	// ---- oracles
+	nSub := len(ob.res.subs)
+	hops := 0
+	for _, s := range ob.res.subs {
+		if strings.HasPrefix(s.Text, "_federation {") {
+			hops++
+		}
+	}
+	run.Hist(fmt.Sprintf("services:%d", len(c.Services)))
+	run.Hist(fmt.Sprintf("subrequests:%d", min(nSub, 6)))
+	run.Hist(fmt.Sprintf("hops:%d", min(hops, 4)))
+	if strings.Contains(text, "... on") || strings.Contains(text, "...F") {
+		run.Hist("query:fragments")
+	}
+	if strings.Contains(text, "@skip") || strings.Contains(text, "@include") {
+		run.Hist("query:directives")
+	}
+	if strings.Contains(text, "(") {
+		run.Hist("query:args")
+	}
+	nontrivial := monoErr == "" && gwErr == "" && nSub >= 2 && js(mono) != "{}"
+	run.Count(key, nontrivial)
+
+	if timedOut {
+		run.Fail(idx, "gateway-request-hangs", text, c)
+		return ob
+	}
+	for _, s := range ob.res.subs {
+		if s.Sig != "" {
+			run.Fail(idx, s.Sig, fmt.Sprintf("service %s got {%s}: %s  (query: %s)", s.Service, short(s.Text, 300), s.Problem, short(text, 300)), c)
+			break
+		}
+	}
+	switch {
+	case monoErr != "" && gwErr != "":
+		run.Hist("outcome:both-error")
+	case monoErr != "":
+		run.Hist("outcome:mono-error-only")
+		// the monolith rejects or fails but the gateway answers: the gateway answered a query the combined
+		// server does not accept
+		run.Fail(idx, "gateway-answers-what-monolith-rejects", fmt.Sprintf("monolith: %s; gateway: %s; query: %s", short(monoErr, 200), short(js(gw), 200), short(text, 400)), c)
+	case gwErr != "":
+		run.Hist("outcome:gateway-error-only")
+		sig := "gateway-error-monolith-ok"
+		if strings.Contains(gwErr, "not an object") || strings.Contains(gwErr, "failed to extract keys") {
+			sig = "gateway-fails-on-null-at-service-hop"
+		}
+		run.Fail(idx, sig, fmt.Sprintf("gateway: %s; monolith: %s; query: %s", short(gwErr, 300), short(js(mono), 200), short(text, 400)), c)
+	default:
+		run.Hist("outcome:both-ok")
+		strips := unionTypenameStrips(&c, retMap(c.Services), frags)
+		gwN := normaliseUnions(stripAt(gw, "", strips), "", strips)
+		monoN := normaliseUnions(mono, "", strips)
+		ob.res.gwJSON = gwN
+		ref, refErr := runReference(&c)
+		var refN interface{}
+		if refErr == "" {
+			refN, _ = canonJSON(ref)
+			refN = normaliseUnions(refN, "", strips)
+		}
+		monoOK := refErr != "" || deepEqualJSON(monoN, refN)
+		if refErr != "" {
+			run.Hist("reference:unavailable")
+		} else if !monoOK {
+			// the graphql executor itself deviates from GraphQL here (fragments on unions, DESIGN F4/F5): not this property
+			run.Hist("monolith-deviates-from-reference")
+		}
+		switch {
+		case monoOK && !deepEqualJSON(gwN, monoN):
+			sig := "gateway-differs-from-monolith"
+			if isSubset(gwN, monoN) {
+				sig = "gateway-drops-selections"
+			}
+			run.Fail(idx, sig, fmt.Sprintf("gateway: %s; monolith: %s; query: %s", short(js(gwN), 500), short(js(monoN), 500), short(text, 500)), c)
+		case !monoOK && !deepEqualJSON(gwN, refN) && !deepEqualJSON(gwN, monoN):
+			sig := "gateway-differs-from-reference"
+			if isSubset(gwN, refN) {
+				sig = "gateway-drops-selections"
+			}
+			run.Fail(idx, sig, fmt.Sprintf("gateway: %s; reference: %s; monolith: %s; query: %s", short(js(gwN), 400), short(js(refN), 400), short(js(monoN), 400), short(text, 500)), c)
+		case !monoOK && deepEqualJSON(gwN, monoN):
+			run.Hist("gateway-and-monolith-deviate-alike")
+		}
+	}
+	if nontrivial {
+		run.Sample(map[string]interface{}{"query": short(text, 300), "services": len(c.Services), "subrequests": nSub, "result": short(js(mono), 200)})
+	}
+	return ob
+}
+
+func min(a, b int) int {
+	if a < b {
+		return a
+	}
+	return b
+}
+
+func main() {
+	for i, a := range os.Args {
+		if a == "-refresh-child" && i+1 < len(os.Args) {
+			refreshChild(os.Args[i+1])
+			return
+		}
+	}
+	o := vh.ParseFlags()
+	run := vh.NewRun("C06", o)
+	run.Rule = "a case = (random set of field funcs over catalogue objects A-D, unions, a plain object; scalars, enums, lists, nullable and non-null results; arguments incl. input objects) x (random partition over 2-4 services, 20% of the fields on two services, random key struct per (service, object)) x (ServiceSelector choice) x (query: aliases, repeated aliases with different sub-selections at several levels (55%) or @skip/@include with literals and variables (45%), inline / nested / named fragments, unions, arguments, depth 2-4) over a seeded world with nulls, null list elements and empty lists; non-trivial = gateway and monolith both answer, at least 2 sub-requests reach services and the answer is not {}; distinct by (partition, selector, query text)"
+	r := vh.NewRng(o.Seed)
+
+	var cases []Case
+	if o.Replay != "" {
+		var c Case
+		if vh.ReadReplayCase(o.Replay, &c) {
+			c.Origin = "replay"
+			cases = append(cases, c)
+		}
+	} else {
+		for _, f := range vh.CorpusFiles(o.Corpus) {
+			var c Case
+			if vh.ReadReplayCase(f, &c) {
+				c.Origin = "corpus:" + filepath.Base(f)
+				cases = append(cases, c)
+			}
+		}
+		for i := 0; i < o.N; i++ {
+			cases = append(cases, genCase(r.Fork()))
+		}
+	}
+	var all []*obs
+	hangs := 0
+	for idx, c := range cases {
+		run.LogCase(idx, c)
+		if hangs >= 8 {
+			// every hang costs seconds; eight are enough to report
+			run.Hist("skipped-after-repeated-hangs")
+			run.Count(fmt.Sprint("skipped", idx), false)
+			continue
+		}
+		ob := runCase(run, idx, c)
+		if ob.res.timedOut {
+			hangs++
+		}
+		all = append(all, ob)
+	}
+	// refresh: planners swapped while requests run (in a child process, see refresh.go)
+	if o.Replay == "" {
+		runRefresh(run, o, cases)
+	}
+	emitCoq(run, all)
+	run.Finish()
+}
+
+// isSubset: a is b with some object keys removed (at any depth).
+func isSubset(a, b interface{}) bool {
+	switch x := a.(type) {
+	case map[string]interface{}:
+		y, ok := b.(map[string]interface{})
+		if !ok {
+			return false
+		}
+		for k, v := range x {
+			w, ok := y[k]
+			if !ok || !isSubset(v, w) {
+				return false
+			}
+		}
+		return true
+	case []interface{}:
+		y, ok := b.([]interface{})
+		if !ok || len(x) != len(y) {
+			return false
+		}
+		for i := range x {
+			if !isSubset(x[i], y[i]) {
+				return false
+			}
+		}
+		return true
+	}
+	return deepEqualJSON(a, b)
 }
